@@ -30,6 +30,14 @@ CHECKS["C19"] = dict(level="exploration", ref="DESIGN.md §5 C19",
    technique="Hypothesis-generated abstract directory trees realised twice on disk; result compared with an injective model-side encoding (hashlib digests, normalised link targets) plus metamorphic single edits, chunked-stream differential against hashlib, and enumeration of outside-leading symlink shapes",
    text="Generated search; equal trees must hash equal and equal the model encoding (so different trees necessarily differ), every single edit must change the result, every outside-leading link shape must raise ValueError. Link chains/cycles and special files are not asserted.",
    note=TB + "; /dev/shm tmpfs semantics for symlinks and mtimes")
+CHECKS["C03"] = dict(level="exploration", ref="DESIGN.md §5 C03",
+   technique="exhaustive open-mode matrix (6 modes x 5 on-disk situations x 2 classes x name/list) in a directory shared with prefix-related records, judged against an outcome table written from the h5py.File contract; generated histories reopened under every permutation of the file list",
+   text="The open-mode matrix is enumerated completely (exhaustive for its stated dimensions) with file-set/byte-digest deltas, refused writes in 'r', views after open and after write+close+reopen, and neighbour isolation incl. find_files/list_records; reopen-equality is a generated search over histories x all permutations (<=5 files).",
+   note=TB + "; outcome table is the harness' reading of the h5py.File mode documentation as stated in the property")
+CHECKS["C04"] = dict(level="fault_enumeration", ref="DESIGN.md §5 C04",
+   technique="fault enumeration on valid generated records: single payload byte flip/insert/delete at stratified (quick) or all (thorough) positions, truncation/extension, chain-element removal, foreign/fork substitution, duplicated container, manifest edits; two-directional oracle (faulted sets must raise, untouched set / every chain prefix / MF-as-plain must open and show the reference tree)",
+   text="One fault at a time on private copies of records built from generated histories; thorough enumerates every payload byte position of every container of the generated records. Acceptance side prevents a vacuous 'everything raises'. Single corruptions only.",
+   note=TB + "; libhdf5 is trusted not to crash on corrupted payloads (a worker crash is reported as harness error)")
 NOT_YET = {}
 def main():
     props = [json.loads(l) for l in open(os.path.join(HERE, "properties.jsonl"))]
